@@ -41,8 +41,13 @@ class MetricActionContext(ActionContext):
         for metric in metrics:
             labels, value = self._process_metric(metric)
             for processor in self.trigger_context.config.metric_processors:
-                getattr(processor, self._convert_type(metric.type))(metric.name, labels, metric.namespace or "deep",
-                                                                    metric.help, metric.unit, value)
+                try:
+                    getattr(processor, self._convert_type(metric.type))(metric.name, labels,
+                                                                        metric.namespace or "deep",
+                                                                        metric.help, metric.unit, value)
+                except Exception:
+                    # one processor failing must not stop the other processors, or the other metrics
+                    deep.logging.exception("Cannot process metric %s with %s", metric.name, processor)
 
     def __has_metric_processor(self):
         return self.trigger_context.config.has_metric_processor
